@@ -177,6 +177,23 @@ def known_findings(pid):
     return out
 
 
+def own_observables(case, line):
+    """Observables no property pins down are removed before anything is compared.  Group `ss` prints `<update() return>/<get()>` per
+    event: what a stream's own `update()` RETURNS is not constrained by any property (C05/C04/C10-C12 speak about `get()`; only the
+    Settable-following clause of C15 and the wrappers of C20 speak about propagated errors, and they are observed in groups se / wr),
+    so only the get() part is kept (`lr=…` tokens, the last request of C11/C15, are kept whole)."""
+    if not case.startswith("ss "):
+        return line
+    out = []
+    for tok in line.split(" "):
+        if "/" in tok and not tok.startswith("lr=") and not tok.startswith("PANIC"):
+            head, rest = tok.split("/", 1)
+            if head in ("ok", "-", "err") or head.startswith("E"):
+                tok = rest
+        out.append(tok)
+    return " ".join(out)
+
+
 def shrink_case(case, P, hbin, driver, drv_arg, budget=400):
     """delta-debugging on the tokens of one failing case line: delete tokens (events / operations) as long as harness and driver
     still accept the line and still disagree on the observables the property owns. Returns (shrunk line, impl, model) or None."""
@@ -189,6 +206,7 @@ def shrink_case(case, P, hbin, driver, drv_arg, budget=400):
         for c, a, b in zip(cands, impl, model):
             if a in ("NOIMPL", "BADLINE", "") or b in ("NOIMPL", "BADLINE", ""):
                 out.append(None); continue
+            a, b = own_observables(c, a), own_observables(c, b)
             pre = P["precompare"](c, a, b) if "precompare" in P else None
             if pre is not None:
                 v = pre[0]
@@ -357,6 +375,7 @@ def main():
                 hist["skipped:" + b] = hist.get("skipped:" + b, 0) + 1
                 continue
             lm = P["line_mask"](c) if "line_mask" in P else P["mask"]
+            a, b = own_observables(c, a), own_observables(c, b)
             pre = P["precompare"](c, a, b) if "precompare" in P else None
             if pre is not None:
                 v, detail = pre
